@@ -3,7 +3,7 @@ import sys
 from checks import asmfam
 RULE = 'abstract instructions = spec decodings of the structural byte enumeration (integer + x87 maps, prefixes none/66/64/F0/F3, every ModRM, SIB grid, two paddings), one per (mnemonic, operand kinds/sizes, register class, addressing structure): ~17k'
 TEXT = {
- 'C02': ('Intel and AT&T spellings (plus the 15 boundary immediates of the property at the operand width) are assembled by the real asm/asm_att; EVERY candidate is decoded by the independent spec decoder and must be the requested instruction with its full length', 'bounded run-time contract on asm/asm_att: forall c in asm(line(A)): spec_decode(c) == (len(c), A); the immediate-fitting helper check_imm_size (with imm_to_generic) IS verified from its AST for all immediates (SMT-A, checks/C02smt.py); ad_to_generic is not'),
+ 'C02': ('Intel and AT&T spellings (plus the 15 boundary immediates of the property at the operand width) are assembled by the real asm/asm_att; EVERY candidate is decoded by the independent spec decoder and must be the requested instruction with its full length', 'bounded run-time contract on asm/asm_att: forall c in asm(line(A)): spec_decode(c) == (len(c), A); the immediate-fitting helper check_imm_size (with imm_to_generic) IS verified from its AST for all immediates and ad_to_generic (displacement size classes incl. completeness of the disp8 form) ARE verified (SMT-A, checks/C02smt.py)'),
  'C03': ('for every candidate c of asm(line(A)): dis(c) accepts, consumes len(c), and c in asm(str(dis(c))); for every enumerated byte string that GNU as reproduces from the reference spelling (canonical): b in asm(str(dis(b)))', 'bounded fixpoint contract over generated lines and canonical byte strings; canonicity is decided by executing GNU as on the spec rendering, as the property defines it'),
  'C09': ('for every enumerated canonical byte string: b in asm(str(i)) and b in asm_att(att(i)); when no raw relative displacement or absolute numeric memory operand is involved, both renderings are given to the real GNU as (--32, Intel and AT&T mode) and its output must spec-decode to the same instruction', 'bounded; GNU as is an external function executed for real (batched), its answer compared through the spec decoder'),
  'C19': ('for every generated line: upper-case registers, lower-case size keywords, extra blanks/tabs, hexadecimal and signed numbers, index-first and displacement-first term order, disp[reg] form, st(0) for st, and the AT&T transliteration must yield the same SET of candidates', 'bounded metamorphic contract on asm/asm_att; the term-algebra proofs of DESIGN 5/C19 (dict_add/dict_sub) are not claimed'),
@@ -11,6 +11,7 @@ TEXT = {
 def _smt(run):
     from checks import C02smt, asmsse
     C02smt.ob_smt(run)
+    C02smt.ob_ad(run)
     asmsse.ob(run, 'C02')      # MMX/SSE instructions: reference objdump
 
 if __name__ == '__main__':
